@@ -4,10 +4,11 @@
 import SV.Proofs.Engine
 import SV.Proofs.Stateful
 import SV.Model.Plan
+import SV.Proofs.Plan
 import SV.Generated.Engine
 
 namespace SV.Props.C11
-open SV.Model.Engine SV.Model.Plan SV.Proofs.Engine
+open SV.Model.Engine SV.Model.Plan SV.Proofs.Engine SV.Proofs.Plan
 
 /-- the phases are listed in the fixed order the property names -/
 theorem phase_order_matches_source :
@@ -105,36 +106,6 @@ theorem unclosed_at_failure_limit :
 
 /-! ### the plan: phases in order, each opened and closed once -/
 
-/-- indices of the phases opened / closed in a plan stream -/
-def openedPhases : List PEv → List Nat
-  | [] => []
-  | .phaseStarted i :: r => i :: openedPhases r
-  | _ :: r => openedPhases r
-
-def closedPhases : List PEv → List Nat
-  | [] => []
-  | .phaseFinished i _ _ :: r => i :: closedPhases r
-  | _ :: r => closedPhases r
-
-theorem openedPhases_append (a b : List PEv) : openedPhases (a ++ b) = openedPhases a ++ openedPhases b := by
-  induction a with
-  | nil => rfl
-  | cons e r ih => cases e <;> simp [openedPhases, ih]
-
-theorem closedPhases_append (a b : List PEv) : closedPhases (a ++ b) = closedPhases a ++ closedPhases b := by
-  induction a with
-  | nil => rfl
-  | cons e r ih => cases e <;> simp [closedPhases, ih]
-
-theorem openedPhases_inner (i : Nat) (evs : List Ev) : openedPhases (evs.map (.inner i)) = [] := by
-  induction evs with
-  | nil => rfl
-  | cons e r ih => simp [openedPhases, ih]
-
-theorem closedPhases_inner (i : Nat) (evs : List Ev) : closedPhases (evs.map (.inner i)) = [] := by
-  induction evs with
-  | nil => rfl
-  | cons e r ih => simp [closedPhases, ih]
 
 /-- When no KeyboardInterrupt escapes a phase generator: the phases opened are a prefix of the configured list, in
     order, and exactly the opened phases are closed, once each, in the same order. -/
